@@ -144,12 +144,22 @@ class Model:
         # renamed / moved functions and renamed attributes are mapped back
         # to the names of the pinned tree first
         self.aliases = normalise.map_back({k: v[2] for k, v in parsed.items()})
+        # renamed parameters of non-public functions get their pinned names
+        self.aliases.params = normalise.canon_params(
+            {k: v[2] for k, v in parsed.items()}, self.aliases)
         # pinned helpers that were inlined into their callers are put back
         self.aliases.restored = normalise.outline_back(
             {k: v[2] for k, v in parsed.items()}, self.aliases)
         self.norm = normalise.Normaliser(
             {k: v[2] for k, v in parsed.items()},
             normalise.known_functions()).run()
+        # ... and once more now that helpers the pinned tree does not know
+        # are inlined: a pinned helper that was renamed *and* given another
+        # signature (its callers doing part of its work) reappears as the
+        # pinned body at the call site and is put back under its own name
+        self.aliases.restored = list(self.aliases.restored) + \
+            normalise.outline_back({k: v[2] for k, v in parsed.items()},
+                                   self.aliases)
         self.norm.unrolled = normalise.unroll_callable_loops(
             {k: v[2] for k, v in parsed.items()})
         for name, (path, src, tree) in parsed.items():
